@@ -267,13 +267,17 @@ func (p *vfJ) str() ([]rune, error) {
 }
 
 // vfDecodeLine: one Write call must be exactly one complete JSON object followed by '\n'
+var vfLastErrPos int // where the strict decoder gave up on the last rejected line (diagnostics only)
+
 func vfDecodeLine(b []byte) (*vfObj, bool) {
+	vfLastErrPos = -1
 	if len(b) == 0 || b[len(b)-1] != '\n' {
 		return nil, false
 	}
 	p := &vfJ{b: b[:len(b)-1]}
 	v, err := p.value()
 	if err != nil {
+		vfLastErrPos = p.i
 		return nil, false
 	}
 	p.ws()
@@ -438,7 +442,18 @@ func (w *vfLogWriter) Write(b []byte) (int, error) {
 		if len(pre) > 200 {
 			pre = pre[:200]
 		}
-		w.sink.log(map[string]interface{}{"ev": "Garbled", "text": fmt.Sprintf("%q", pre)})
+		around := ""
+		if vfLastErrPos >= 0 {
+			lo, hi := vfLastErrPos-80, vfLastErrPos+40
+			if lo < 0 {
+				lo = 0
+			}
+			if hi > len(b) {
+				hi = len(b)
+			}
+			around = fmt.Sprintf("%q", b[lo:hi])
+		}
+		w.sink.log(map[string]interface{}{"ev": "Garbled", "text": fmt.Sprintf("%q", pre), "at": vfLastErrPos, "around": around})
 		return len(b), nil
 	}
 	// docker: compare only scan / proto / host (plus the presence of info and version objects)
@@ -509,6 +524,9 @@ func vfServerMap(rnd *rand.Rand, depth int) map[string]interface{} {
 		if len(k) > 60 {
 			k = k[:60]
 		}
+		// the maps of elastic results come out of encoding/json, whose object keys are valid UTF-8 (invalid bytes were replaced while
+		// decoding): two different invalid keys would otherwise be printed as the same "\ufffd..." key
+		k = strings.ToValidUTF8(k, "\uFFFD")
 		switch rnd.Intn(7) {
 		case 0:
 			m[k] = vfStr(rnd)
